@@ -35,7 +35,7 @@ func scBacklog(r *Run) {
 		opener, acceptor, oname = mp.B, mp.A, "B"
 	}
 	// how many tubes: around the size of the accept queue (128) and beyond it
-	nRel := []int{20, 100, 120, 127, 128}[r.Intn("cfg", 5)]
+	nRel := []int{20, 100, 120, 127, 128, 17, 33, 65}[r.Intn("cfg", 8)]
 	nUnrel := []int{0, 1, 3, 20, 100}[r.Intn("cfg", 5)]
 	r.SetCfg("opens", fmt.Sprintf("%d reliable + %d unreliable by %s", nRel, nUnrel, oname))
 	type opened struct {
@@ -45,6 +45,56 @@ func scBacklog(r *Run) {
 	var mu sync.Mutex
 	var all []opened
 	var wg sync.WaitGroup
+	type key struct {
+		rel bool
+		id  byte
+	}
+	accepted := map[key]int{}
+	acceptedType := map[key]tubes.TubeType{}
+	note := func(t tubes.Tube) bool {
+		if t == nil || t == tubes.Tube((*tubes.Reliable)(nil)) || t == tubes.Tube((*tubes.Unreliable)(nil)) {
+			r.Violate("C09/accept-returned-nothing", "Accept returned no tube and no error (a queue position that holds nothing)")
+			return false
+		}
+		k := key{t.IsReliable(), t.GetID()}
+		mu.Lock()
+		accepted[k]++
+		acceptedType[k] = t.Type()
+		mu.Unlock()
+		return true
+	}
+	// the session is not new: a few tubes were opened and accepted before (the accept queue has been used and
+	// emptied; whatever position it keeps is no longer at its start)
+	if r.Intn("warm", 2) == 0 {
+		k1 := 1 + r.Intn("warm", 30)
+		for i := 0; i < k1; i++ {
+			typ := tubes.TubeType(1 + r.Intn("warm", 7))
+			var t tubes.Tube
+			var err error
+			if r.Intn("warm", 3) != 0 {
+				var rt *tubes.Reliable
+				rt, err = opener.CreateReliableTube(typ)
+				t = rt
+			} else {
+				var ut *tubes.Unreliable
+				ut, err = opener.CreateUnreliableTube(typ)
+				t = ut
+			}
+			if err != nil {
+				continue
+			}
+			all = append(all, opened{t, typ})
+			var at tubes.Tube
+			if !WithTimeout(r, time.Minute, func() { at, err = acceptor.Accept() }) || err != nil {
+				r.Probe("warm-up-accept-did-not-complete")
+				break
+			}
+			if !note(at) {
+				return
+			}
+		}
+		r.CountFault("accept-queue-used-before", 1)
+	}
 	workers := 1 + r.Intn("cfg", 3)
 	for w := 0; w < workers; w++ {
 		w := w
@@ -85,12 +135,6 @@ func scBacklog(r *Run) {
 	}
 	// the application is slow: it starts accepting only now
 	time.Sleep(time.Duration(r.Intn("cfg", 5000)) * time.Millisecond)
-	type key struct {
-		rel bool
-		id  byte
-	}
-	accepted := map[key]int{}
-	acceptedType := map[key]tubes.TubeType{}
 	idle := make(chan struct{}, 1)
 	got := make(chan tubes.Tube, 1024)
 	r.Go(func() {
@@ -106,11 +150,10 @@ func scBacklog(r *Run) {
 		for {
 			select {
 			case t := <-got:
-				k := key{t.IsReliable(), t.GetID()}
-				mu.Lock()
-				accepted[k]++
-				acceptedType[k] = t.Type()
-				mu.Unlock()
+				if !note(t) {
+					idle <- struct{}{}
+					return
+				}
 			case <-time.After(20 * time.Second):
 				idle <- struct{}{}
 				return
